@@ -137,12 +137,28 @@ def gen_project(at, dt):
     return Shim(), at.ParameterSet(Fw, sc.dcp(D)), sc.dcp(pg)
 
 
+def run_swapped(at, P, ps, pg, ins):
+    """The model is built with other instructions (half the budget), the caller then assigns the instructions that count and processes the model
+    (what an optimisation does with its unpickled model): the run and its reports are those of the instructions in place when it is processed."""
+    import sciris as sc
+
+    old = sc.dcp(ins)
+    for k in old.alloc:
+        old.alloc[k].vals = [0.5 * float(v) for v in old.alloc[k].vals]
+        if old.alloc[k].assumption is not None:
+            old.alloc[k].assumption = 0.5 * float(old.alloc[k].assumption)
+    m = at.Model(P.settings, P.framework, ps, pg, old)
+    m.program_instructions = sc.dcp(ins)
+    m.process()
+    return at.Result(model=m, parset=ps, name="swapped")
+
+
 def check_run(at, P, ps, pg, make_ins, label, records, index, rid, V):
     import sciris as sc
 
     ins = make_ins()
     with ProgObserver() as ob:
-        res = P.run_sim(ps, pg, ins, store_results=False)
+        res = run_swapped(at, P, ps, pg, ins) if label.get("route") == "instructions assigned between build and process" else P.run_sim(ps, pg, ins, store_results=False)
     m = res.model
     mid = id(m)
     dt = float(m.dt)
@@ -302,10 +318,12 @@ def run(prop, tier):
             "budget change": lambda: at.ProgramInstructions(start_year=s0 + 2, alloc={progs[0]: TimeSeries([s0 + 2, s0 + 5], [float(pg.programs[progs[0]].spend_data.interpolate(s0 + 2, method="previous")[0]), 3.0 * float(pg.programs[progs[0]].spend_data.interpolate(s0 + 2, method="previous")[0]) + 10.0])}),
             "coverage and capacity overwrites": lambda: at.ProgramInstructions(start_year=s0 + 2, alloc=pg, coverage={progs[0]: TimeSeries([s0 + 2, s0 + 4], [0.2, 0.9])}, capacity={progs[-1]: TimeSeries([s0 + 2, s0 + 4], [100.0, 5000.0])}),
         }
-        for vname, mk in variants.items():
+        for vname, mk in list(variants.items()) + ([("start on grid", variants["start on grid"])] if name == "udt" else []):
             if not thorough and name != "udt" and vname in ("budget change",):
                 continue
             label = dict(model=name, instructions=vname)
+            if any(r_["label"] == label for r_ in cov["runs"]):  # the second pass for udt: the other way of getting instructions into a model
+                label = dict(label, route="instructions assigned between build and process")
             try:
                 rid, nact = check_run(at, P, ps, pg, mk, label, records, index, rid, V)
                 cov["runs"].append(dict(label=label, active_steps=nact))
